@@ -33,6 +33,9 @@ class TreeGen:
         self.shared = self.lists and rnd.random() < 0.5
         if self.shared:
             self.ELEMS = [e for e in TreeGen.ELEMS if not e.startswith("l[")]
+        # a tracked Array written in place at a secret index inside regions (the write happens on the object, the merge at the
+        # end of the region has to undo it when the region was not taken)
+        self.arrays = rnd.random() < 0.3
 
     ELEMS = ["l[0]", "l[1]", "l[2]", "m[0][0]", "m[0][1]", "m[1][0]", "m[1][1]"]
 
@@ -71,6 +74,9 @@ class TreeGen:
         r = self.rnd
         x = r.random()
         if depth >= 3 or x < 0.45:
+            if self.arrays and r.random() < 0.3:
+                self.kinds.add("array-write-at-secret-index")
+                return ("arr_write", r.choice(vars_), self.expr(vars_))
             if self.shared and r.random() < 0.3:
                 self.kinds.add("shared-list")
                 if r.random() < 0.5:
@@ -184,6 +190,12 @@ def render(tree, api):
                 if not api:
                     rhs = "chk(%s)" % rhs
                 emit(ind, "%s = %s" % (("_.%s" % st[1]) if api else st[1], rhs))
+            elif k == "arr_write":
+                rhs = ex(st[2])
+                if api:
+                    emit(ind, "_.arr[_.%s %% 3] = %s" % (st[1], ("ConstVal(%s)" % rhs) if rhs.lstrip("-").isdigit() else rhs))
+                else:
+                    emit(ind, "arr[%s %% 3] = chk(%s)" % (st[1], rhs))
             elif k == "assign_raw":
                 emit(ind, "%s = %s" % (("_.%s" % st[1]) if api else st[1], ex(st[2])))
             elif k == "select_list":
@@ -307,6 +319,9 @@ def worker(job):
         if tg.lists:
             head_api += ["_.l = [_.a + 0, _.b + 1, ConstVal(3)]", "_.m = [[_.a + 1, _.b + 0], [_.c + 0, ConstVal(2)]]"]
             head_twin += ["l = [a + 0, b + 1, 3]", "m = [[a + 1, b + 0], [c + 0, 2]]"]
+        if tg.arrays:
+            head_api += ["_.arr = Array([_.a + 1, _.b + 2, ConstVal(9)])"]
+            head_twin += ["arr = [a + 1, b + 2, 9]"]
         if tg.shared:
             head_api += ["S = [_.a + 2, _.b + 3, ConstVal(5)]", "T = [_.c + 1, ConstVal(7), _.a + 0]"]
             head_twin += ["S = [a + 2, b + 3, 5]", "T = [c + 1, 7, a + 0]"]
@@ -446,6 +461,8 @@ def worker(job):
 def plainval(v):
     if isinstance(v, list):
         return [plainval(x) for x in v]
+    if hasattr(v, "arr") and isinstance(getattr(v, "arr"), list):
+        return [plainval(x) for x in v.arr]       # a pysnark Array
     if isinstance(v, int):
         return v
     if hasattr(v, "value"):
